@@ -35,11 +35,19 @@ ASSUMPTIONS = [
 
 
 class Checker:
-    def __init__(self, rows_plain):
+    def __init__(self, rows_plain, renamed_with=None):
         self.plain = rows_plain
         self.src = conv.mk_rows(rows_plain)
         self.spans = ref.layout(rows_plain)
-        self.asm = IndexedAssembly("a", scaffolds=[Scaffold("s", self.src)])
+        mine = Scaffold("s", self.src)
+        scaffolds = [mine]
+        if renamed_with:
+            other = Scaffold("t", conv.mk_rows(renamed_with))
+            scaffolds.append(other)
+        self.asm = IndexedAssembly("a", scaffolds=scaffolds)
+        if renamed_with:
+            # the scaffold objects are renamed after indexing (the remapper renames scaffolds by size)
+            mine.name, other.name = "t", "s"
 
     def locate(self, row):
         """candidate source indices for a (possibly shortened) row: identity first, else same contig name"""
@@ -158,7 +166,7 @@ def apply_op(r, op):
 
 
 def run_case(rows_plain, bait, ops, rec, case, chk=None):
-    chk = chk or Checker(rows_plain)
+    chk = chk or Checker(rows_plain, (case or {}).get("renamed_with"))
     a, b, strand = bait
     r = must(chk.asm.find_overlaps, Fragment("s", a, b, strand, ("Painted", "X")), what="find_overlaps")
     if r is None:
@@ -213,7 +221,10 @@ def cases(draw):
         s, e = draw(st.sampled_from(frag_spans))
         a, b = min(a, e), max(b, s)
     ops = draw(st.lists(op_strategy, min_size=1, max_size=8))
-    return {"rows": rows, "bait": [a, b, draw(st.sampled_from([1, -1]))], "ops": ops}
+    case = {"rows": rows, "bait": [a, b, draw(st.sampled_from([1, -1]))], "ops": ops}
+    if draw(st.integers(0, 7)) == 0:
+        case["renamed_with"] = draw(scaffold_rows(max_rows=5))
+    return case
 
 
 SMALL_OPS = [["ds"], ["de"], ["tlo", 0], ["tlo", 1], ["tlo", 3],
